@@ -32,7 +32,14 @@ RELATED = {
 def demo(n):
     """build + run the mutant's own demonstration against /repo's current tree and our build
     tree; returns its exit status (0 = property holds) or None if there is no demo"""
-    d = os.path.join(SEED, n)
+    src = os.path.join(SEED, n)
+    # scratch copy with the seeding worktree's absolute paths redirected to /repo
+    d = os.path.join("/tmp", "seeded_demo_dir", n)
+    sh(f"rm -rf {d}; mkdir -p {d}; cp -r {src}/. {d}/")
+    wt = "/tmp/seed-" + n.split("-")[0].lower()
+    sh(f"grep -rlZ '{wt}' {d} | xargs -0 -r sed -i 's#{wt}/_build#{BUILD}#g; s#{wt}#/repo#g'")
+    if "libtestcel" in open(os.path.join(d, "demo.sh")).read() if os.path.exists(os.path.join(d, "demo.sh")) else False:
+        return None, "needs test libraries: run by tools/confirm_seeded_tests.py in its own worktree"
     sh(f"ninja -C {BUILD} libcorecel.so libgeocel.so liborange.so libceleritas.so")
     script = os.path.join(d, "demo.sh")
     if not os.path.exists(script):
@@ -44,20 +51,17 @@ def demo(n):
     if os.path.exists(script):
         txt = open(script).read()
         envs = (f"R=/repo B={BUILD} SRC=/repo BUILD={BUILD} CELER_SRC=/repo CELER_BUILD={BUILD} "
-                f"REPO_ROOT=/repo BUILD_DIR={BUILD} CELER_SOURCE_ROOT=/repo ROOT=/repo")
-        if ("ROOT=${ROOT:-" in txt and "$ROOT/seeded" in txt and "-lcorecel" not in txt
+                f"REPO_ROOT=/repo BUILD_DIR={BUILD} CELER_SOURCE_ROOT=/repo ROOT=/repo CELER_ROOT=/repo WT=/repo")
+        if ("ROOT=${ROOT:-" in txt and "/seeded" in txt and "CFG" in txt and "-lcorecel" not in txt
                 and os.path.exists(cc)):
             exe = os.path.join("/tmp", "seeded_demo_" + n)
             rc, out = sh(f"g++ -std=c++17 -O1 -I/repo/src -I{BUILD}/include {cc} -o {exe} && "
                          f"CELER_DISABLE_PARALLEL=1 {exe}; rc=$?; rm -f {exe}; exit $rc")
         else:
             rc, out = sh(f"{envs} sh {script} /repo {BUILD}", cwd=d)
-        for f in ("demo.exe", "demo"):
-            try:
-                os.remove(os.path.join(d, f))
-            except OSError:
-                pass
+        sh(f"rm -rf {d}")
         return rc, out[-400:]
+    sh(f"rm -rf {d}")
     return None, ""
 
 
